@@ -105,7 +105,7 @@ func VfH_C16_total_footprint_deep() {
 func VfH_C16_total_file() {
 	max := 24
 	if vfThorough() {
-		max = 100
+		max = 48
 	}
 	data := vfArbitrary("data", max)
 	var ff fileFootprints
